@@ -4,6 +4,9 @@ CONSTANTS
   MKinds = {"DATA", "FRAG", "HB", "GAP", "ACK"}
   MGovs = {"N", "S", "E"}
   MaxLen = 5
+  MXm = {0}
+  MWraps = "all"
+  MSrcs = {"peer", "foreign"}
   GenK = 1
 VIEW View
 INVARIANT Inv_Protected
